@@ -191,7 +191,7 @@ type q02 struct {
 	rev  int
 }
 
-var q02Alph = [14]int{3, 4, 3, 3, 3, 2, 2, 2, 2, 3, 9, 2, 3, 3}
+var q02Alph = [14]int{5, 8, 4, 4, 4, 2, 2, 2, 2, 3, 9, 2, 3, 3}
 var q02Names = [14]string{"id", "body", "connset", "qset", "params", "secret", "quota", "optquota", "inituser", "external", "input", "span", "input2", "stream"}
 
 func (k q02) id() string {
@@ -215,6 +215,8 @@ func body02(k q02) Body {
 			connSet = []ch.Setting{{Key: "max_threads", Value: "1", Important: true}}
 		case 2:
 			connSet = []ch.Setting{{Key: "max_threads", Value: "1", Important: true}, {Key: "b", Value: "x"}}
+		case 3:
+			connSet = []ch.Setting{{Key: strings.Repeat("k", 128), Value: strings.Repeat("v", 127)}}
 		}
 		opt.Settings = connSet
 		if k.f[7] == 1 {
@@ -242,14 +244,16 @@ func body02(k q02) Body {
 			return Outcome{Key: "C02/addendum", Detail: fmt.Sprintf("revision %d has no addendum but the client wrote %x after its hello", c.W.Rev, hs[hr.Pos:])}
 		}
 
-		q := ch.Query{QueryID: []string{"q-1", "", strings.Repeat("i", 300)}[k.f[0]],
-			Body: []string{"SELECT 1", "", longBody, "SELECT '\xff\xfe\x00'"}[k.f[1]]}
+		q := ch.Query{QueryID: []string{"q-1", "", strings.Repeat("i", 300), strings.Repeat("j", 127), strings.Repeat("k", 128)}[k.f[0]],
+			Body: []string{"SELECT 1", "", longBody, "SELECT '\xff\xfe\x00'", "SELECT '" + strings.Repeat("b", 118) + "'", "SELECT '" + strings.Repeat("b", 119) + "'", "SELECT '" + strings.Repeat("b", 16374) + "'", "SELECT '" + strings.Repeat("b", 16375) + "'"}[k.f[1]]}
 		var qSet []ch.Setting
 		switch k.f[3] {
 		case 1:
 			qSet = []ch.Setting{{Key: "c", Value: "2", Important: true}}
 		case 2:
 			qSet = []ch.Setting{{Key: "max_threads", Value: "8"}, {Key: "d", Value: ""}}
+		case 3:
+			qSet = []ch.Setting{{Key: strings.Repeat("q", 127), Value: strings.Repeat("w", 128)}}
 		}
 		q.Settings = qSet
 		switch k.f[4] {
@@ -257,6 +261,8 @@ func body02(k q02) Body {
 			q.Parameters = []proto.Parameter{{Key: "p1", Value: "'v1'"}}
 		case 2:
 			q.Parameters = []proto.Parameter{{Key: "p1", Value: "'v1'"}, {Key: "p2", Value: ""}}
+		case 3:
+			q.Parameters = []proto.Parameter{{Key: strings.Repeat("p", 128), Value: "'" + strings.Repeat("x", 126) + "'"}}
 		}
 		if k.f[5] == 1 {
 			q.Secret = "s3cret"
@@ -465,7 +471,7 @@ func body02(k q02) Body {
 
 // C02 — everything the client writes for a query is a well-formed packet sequence.
 func C02(c *vk.Ctx) {
-	c.Rule("queries with <= 2 (thorough 4) fields deviating from a base query over per-field alphabets (query id given / generated / 300 bytes; body short / empty / 70 KiB / non-UTF-8; 0..2 connection settings; 0..2 query settings incl. an override and an empty value; 0..2 parameters; secret; query quota key; connection quota key (addendum); initial user; external data none / default table / named table with 2 columns; input of 1..3 columns, sent as one block, streamed in two rounds through OnInput (Reset + refill of the same column objects) or sent without rows, over 32 column types and two large pseudo-random blocks (40000 x UInt64 = 320 KB, 3000 x 64-byte strings) (integers to 256 bits, floats, Bool, UUID, IPv4/6, dates, DateTime64, Decimal, FixedString, name-based enums that must adopt the server's definition, JSON, Point, Nullable, LowCardinality, nested arrays, Array(LowCardinality), Map(String, Array), Tuple); OpenTelemetry span context) x {Disabled, None, LZ4, LZ4HC, ZSTD} at the newest revision, and queries with <= 1 deviation x every revision of the threshold-neighbour set from 54420 up x {Disabled, LZ4}. Each case is one execution of the real Connect + Do (default schedule); the recorded client bytes are compared with the reference encoding (Query packet byte for byte; blocks by reference decoding incl. frame checksum). distinct_nontrivial = cases.")
+	c.Rule("queries with <= 2 (thorough 4) fields deviating from a base query over per-field alphabets (query id given / generated / 127 / 128 / 300 bytes; body short / empty / 127 / 128 / 16383 / 16384 bytes / 70 KiB / non-UTF-8; setting and parameter keys and values of 127 / 128 bytes; 0..2 connection settings; 0..2 query settings incl. an override and an empty value; 0..2 parameters; secret; query quota key; connection quota key (addendum); initial user; external data none / default table / named table with 2 columns; input of 1..3 columns, sent as one block, streamed in two rounds through OnInput (Reset + refill of the same column objects) or sent without rows, over 32 column types and two large pseudo-random blocks (40000 x UInt64 = 320 KB, 3000 x 64-byte strings) (integers to 256 bits, floats, Bool, UUID, IPv4/6, dates, DateTime64, Decimal, FixedString, name-based enums that must adopt the server's definition, JSON, Point, Nullable, LowCardinality, nested arrays, Array(LowCardinality), Map(String, Array), Tuple); OpenTelemetry span context) x {Disabled, None, LZ4, LZ4HC, ZSTD} at the newest revision, and queries with <= 1 deviation x every revision of the threshold-neighbour set from 54420 up x {Disabled, LZ4}. Each case is one execution of the real Connect + Do (default schedule); the recorded client bytes are compared with the reference encoding (Query packet byte for byte; blocks by reference decoding incl. frame checksum). distinct_nontrivial = cases.")
 	run := func(k q02, group string) {
 		id := k.id()
 		if !c.Next(id) {
